@@ -19,6 +19,7 @@ package main
 
 import (
 	"fmt"
+	"os"
 	"path/filepath"
 	"regexp"
 	"sort"
@@ -215,4 +216,47 @@ func namingKey(nm *naming) string {
 	return l
 }
 
-var _ = filepath.Join
+var witnessRe = regexp.MustCompile(`^// c16sem: key=(\S+) class=(\S*) fault=(.*)\n`)
+var moduleRe = regexp.MustCompile(`(?m)^\s*module\s+([A-Za-z0-9_.-]+)`)
+
+// witnesses reads the hand-written single-fault modules of corpus/C16/sem (first line:
+// `// c16sem: key=<statement the error must stand at> class=<error class> fault=<what is wrong>`).
+func witnesses(dir string) []tcase {
+	files, _ := filepath.Glob(filepath.Join(dir, "*.yang"))
+	sort.Strings(files)
+	var out []tcase
+	for _, p := range files {
+		raw, err := os.ReadFile(p)
+		if err != nil {
+			continue
+		}
+		text := string(raw)
+		h := witnessRe.FindStringSubmatch(text)
+		m := moduleRe.FindStringSubmatch(text)
+		if h == nil || m == nil {
+			continue
+		}
+		out = append(out, tcase{Names: []string{m[1] + ".yang"}, Texts: []string{text}, Key: h[1], Marker: h[1], Class: h[2],
+			Fault: "corpus " + filepath.Base(p) + ": " + h[3]})
+	}
+	return out
+}
+
+// witnessNaming names the one text of a witness after shape k.
+func witnessNaming(k int, names []string) *naming {
+	sh := shapes[k%len(shapes)]
+	nm := &naming{Label: sh.Label, Root: sh.Dir}
+	if sh.Colon || sh.NoDisk || sh.Dir == "" {
+		nm.Root = diskDirs[k%len(diskDirs)]
+	}
+	for j, n := range names {
+		nm.Given = append(nm.Given, sh.Apply(n))
+		nm.Dirs = append(nm.Dirs, diskDirs[(k+1+j)%len(diskDirs)])
+		base := ""
+		if sh.Decorated() && !sh.Colon && !sh.NoDisk {
+			base = NameShapeBase(sh, n)
+		}
+		nm.Base = append(nm.Base, base)
+	}
+	return nm
+}
